@@ -481,6 +481,18 @@ def gen_cases(tier, rng):
                 yield bcast(ALL_ON, JOINS + pre + [P(t, ts, tok), P(9, ts, AVC_IDR)], "bcast-long-ts")
                 if n in (8193, 70000):
                     yield bcast("re=1,rg=1", ["Jr:1", P(t, ts, tok), "Jr:7", P(t, ts, tok)], "bcast-long-ts")
+    # (0f) remux.RtspRemuxerAddSpsPps2KeyFrameFlag on (F-46, repaired): key frames of 6..14 bytes and longer, avc / hevc /
+    #      enhanced hevc (nalu data at GetEnchanedHevcNaluIndex()), several nalus, through the remuxer and the whole fan-out
+    for pre, heads in ((PREAMBLE_AVC, [bytes.fromhex("1701000000"), bytes.fromhex("2701000000")]),
+                       (PREAMBLE_HEVC, [bytes.fromhex("1c01000000"), bytes.fromhex("2c01000000")]),
+                       (PREAMBLE_EHEVC, [bytes([0x91]) + b"hvc1" + b"\x00\x00\x10", bytes([0x93]) + b"hvc1", bytes([0xa1]) + b"hvc1" + b"\x00\x00\x00"])):
+        for h in heads:
+            bodies = [bytes(k) for k in range(0, 6)] + [avcc(b"\x65"), avcc(b"\x26\x01\xaf"), avcc(b"\x65\x88", b"\x41\x9a\x00"),
+                                                       b"\x00\x00\x00\x09\x65\x88", avcc(bytes([0x65]) + bytes(1500))]
+            for b in bodies:
+                evs = pre + [P(9, 40, h + b), P(9, 80, AVC_P)]
+                yield Case("c05.rtsp 1 %s" % ";".join(evs), cls="rtsp-addflag")
+                yield bcast("se=1,wk=1,re=1,ak=1", pre[:2] + ["Js:5"] + pre[2:] + [P(9, 40, h + b)], "bcast-addflag")
     # (1) helpers of t_rtmp.go, exhaustive on short payloads
     for t, b in short_payloads():
         yield Case("c05.cls %d %s" % (t, hex_tok(b)), cls="cls-short")
@@ -552,7 +564,7 @@ def gen_cases(tier, rng):
         pevs = [e for e in evs if e.startswith("P")]
         if drop_empty(pevs):
             yield Case("c05.ts %s" % ";".join(drop_empty(pevs)), cls="ts-stream")
-            yield Case("c05.rtsp 0 %s" % ";".join(drop_empty(pevs)), cls="rtsp-stream")
+            yield Case("c05.rtsp %d %s" % (i % 2, ";".join(drop_empty(pevs))), cls="rtsp-stream")
         if i % 3 == 0:
             yield Case("c05.dummy %d 8 %s" % (rng.choice([0, 100, 150]), ";".join(pevs)), cls="dummy-stream")
     # (7) mutation stream: hostile histories
@@ -564,7 +576,7 @@ def gen_cases(tier, rng):
             pevs = [e for e in evs if e.startswith("P")]
             if drop_empty(pevs):
                 yield Case("c05.ts %s" % ";".join(drop_empty(pevs)), cls="ts-hostile")
-                yield Case("c05.rtsp 0 %s" % ";".join(drop_empty(pevs)), cls="rtsp-hostile")
+                yield Case("c05.rtsp %d %s" % ((i // 2) % 2, ";".join(drop_empty(pevs))), cls="rtsp-hostile")
         if i % 4 == 0:
             yield Case("c05.dummy %d 8 %s" % (rng.choice([0, 100, 150]), ";".join(pevs)), cls="dummy-hostile")
 
@@ -619,9 +631,6 @@ def classify_finding(case, impl_out):
     sites = _sites(impl_out)
     if len(sites) == 1 and sites[0] in KNOWN_SITES:
         return KNOWN_SITES[sites[0]]
-    # remux.RtspRemuxerAddSpsPps2KeyFrameFlag = true is only reachable through the component op (lalserver never sets it)
-    if op == "c05.rtsp" and case.line.split(" ")[1] == "1" and sites == ["remux.(*Rtmp2RtspRemuxer).remux:slice"]:
-        return "F-46"
     return None
 
 
